@@ -410,6 +410,15 @@ class OuterF:
         up: typing.Optional[OuterF] = None
     i: InnerF = None
     many: list[InnerF] = dataclasses.field(default_factory=list)
+# a subclass that declares NO fields of its own (behaviour only): its members are the inherited ones
+@dataclasses.dataclass
+class ShapeF:
+    w: int = 0
+    inner: OuterF.InnerF = None
+    tags: list[str] = dataclasses.field(default_factory=list)
+class SquareF(ShapeF):
+    def area(self):
+        return self.w * self.w
 # bracket-free PEP 604 unions mixing builtin members with a class, on a cycle that does not run through the root
 @dataclasses.dataclass
 class HeadP:
@@ -441,6 +450,10 @@ def run_special(res):
                 forms(ns, "tlg_c09_special", nm, r, res, dict(case, name=nm, form=form), f"special:{nm}", nodes)
     # postponed annotations naming a NESTED class by its bare name (resolvable only through the namespace of the outer class)
     nsf = prelude.mkmod("tlg_c09_special_f", SPECIAL_F).__dict__
+    for form in ("cls", "list"):
+        r = nsf["SquareF"] if form == "cls" else list[nsf["SquareF"]]
+        cold.clear_all()
+        invariants(r, f"{form} of SquareF", res, dict(case, name="SquareF", form=form), shape=f"special:SquareF(behaviour-only subclass)/root={form}")
     for nm in ("HeadP", "LeftP"):
         for form in ("cls", "list"):
             r = nsf[nm] if form == "cls" else list[nsf[nm]]
